@@ -92,8 +92,11 @@ def is_const(t):
 
 
 class Deep:
-    def __init__(self, F, root, max_paths=3000, max_depth=6, inline=True, opaque=None, inline_only=None, stop_at=(), prune=None):
+    def __init__(self, F, root, max_paths=3000, max_depth=6, inline=True, opaque=None, inline_only=None, stop_at=(), prune=None, unroll=1):
         self.stop_at = frozenset(stop_at)
+        # unroll: how often a block of the root frame may be visited on one path (2 = every loop body is followed by
+        # one more turn, so that what one turn accumulates can be seen in what is done after the loop)
+        self.unroll = unroll
         # prune: None, or a regex of "interesting" opaque callees.  With pruning, a frame is left as soon as no write
         # through a reference, no interesting call and no inlinable callee containing such is reachable any more: what
         # follows (formatting, logging ..) cannot change the recorded writes and is not explored (value: ("pruned", n)).
@@ -328,7 +331,9 @@ class Deep:
             if fr.fid == 0 and bb in self.stop_at and seen:
                 self._finish(st, ("reached", bb))
                 return
-            if bb in seen:
+            if bb in seen and fr.fid == 0 and self.unroll >= 2 and ("again", bb) not in seen:
+                seen = seen | {("again", bb)}
+            elif bb in seen:
                 # loop cut
                 if fr.fid == 0:
                     self._finish(st, ("loop", fr.fid, bb), cut=True)
@@ -586,6 +591,16 @@ class Deep:
             if h is not None:
                 return h(fr, st, args, site, cont)
         cb = self.F.callee_body(t, body.crate) if f.get("local") else None
+        if re.search(r"default::Default::default$", path) and not args:
+            ty = f.get("self") or (f.get("targs") or [""])[0]
+            if re.fullmatch(r"[ui](8|16|32|64|128|size)", ty or ""):
+                return cont(st, ("const", 0))
+            if ty == "bool":
+                return cont(st, ("const", False))
+            if (ty or "").startswith("std::option::Option<"):
+                return cont(st, self.NONE)
+        if cb is None and re.search(r"default::Default::default$", path) and f.get("res"):
+            cb = self.F.body(f["res"], body.crate)     # `T::default()` of a crate type (derived or hand-written)
         if cb is not None and self._inlinable(fr, cb, path):
             if self.prune is not None and not self._live(cb):
                 # nothing worth recording inside: small accessors of the event types are still evaluated (their value
@@ -624,6 +639,14 @@ class Deep:
                     a = ("refto", v)
                 elif a[1] in st.heap and v[0] not in ("undef", "unknown") and (a[1] not in self.mut_refs or v[0] not in ("variant", "const", "tuple")):
                     a = ("refto", v)
+                elif a[1][0] in ("field", "as") and v[0] not in ("undef", "unknown", "havoc"):
+                    # `&f.rules` of an owned local that is never borrowed mutably: the field of the local's value
+                    pl, clean = a[1], True
+                    while pl[0] in ("field", "as"):
+                        clean = clean and pl not in self.mut_refs
+                        pl = pl[1]
+                    if clean and pl[0] == "L" and pl in st.heap and pl not in self.mut_refs:
+                        a = ("refto", v)
             snap.append(a)
         # an opaque callee may write through the `&mut` references it receives (directly or captured by a closure
         # argument): what they point to is unknown afterwards
